@@ -26,7 +26,7 @@ INHERITED = {"KF_C04_OffsetCouplingSign": "C04", "KF_C20_Assembly_calc_fint_sum"
              "KF_C20_Panel_calc_kM_model": "C20"}
 INVS = ["RangesPartition", "RangesOrdered", "SizeIsSum", "PlacementsInside", "PlaceAgrees", "GlobalSymmetric",
         "ScaleDominatesGlobal", "ProbesNonNegativeGlobal", "OnlyJoinedBlocks", "SkinPartitionIndependent", "AsmAtRest",
-        "FintConnLocal", "BeamMassPSD", "StiffenerSymmetricPSD"]
+        "FintConnLocal", "BeamMassPSD", "StiffenerSymmetricPSD", "GeoStateLinear"]
 
 
 def quiet(f, *a, **k):
@@ -72,7 +72,7 @@ def build_asm(ad):
 
 
 PRE_CALLS = {"k0": ["kT", "fint", "k0nf", "kM", "kG0"], "fint": ["kT", "k0nf", "kT+k0", "kM"], "kT": ["fint", "k0nf", "kM", "kT"],
-             "kM": ["kT", "kG0"], "kG0": ["kT", "kM"], "fext": ["kT", "fint"]}
+             "kM": ["kT", "kG0"], "kG0": ["kT", "kM"], "fext": ["kT", "fint"], "kGc": ["kT", "kM", "kG0"]}
 
 
 def warm_up(a, panels, ad, pre):
@@ -141,6 +141,8 @@ def observe_asm(ad, r):
     out = []
     if q == "kT":
         out.append(dict(req=r, obs=enc_mat(dense(a.calc_kT(c=c, silent=True)))))
+    elif q == "kGc":
+        out.append(dict(req=r, obs=enc_mat(dense(a.calc_kG0(c=c, silent=True)))))
     else:
         try:
             out.append(dict(req=r, obs=enc_vec(a.calc_fint(c, silent=True))))
@@ -181,11 +183,11 @@ def random_asm(rng):
     return dict(kind="asm", pds=pds, conns=conns)
 
 
-def random_asm_req(rng, ad, q):
+def random_asm_req(rng, ad, q, shift=None, inc=None):
     r = dict(q=q)
     if q == "kG0":
         r["N"] = [[rat(Fraction(rng.randint(-12, 12), 4)) for _ in range(3)] for _ in ad["pds"]]
-    if q in ("fint", "kT"):
+    if q in ("fint", "kT", "kGc"):
         n = sum(3 * pd["m"] * pd["n"] for pd in ad["pds"])
         r["c"] = [rat(Fraction(rng.randint(-8, 8), 16)) for _ in range(n)]
     if q == "fext":
@@ -193,9 +195,14 @@ def random_asm_req(rng, ad, q):
             a, b = fr(pd["a"]), fr(pd["b"])
             return [[rat(Fraction(rng.randint(0, 8), 8) * a), rat(Fraction(rng.randint(0, 8), 8) * b)] +
                     [rat(Fraction(rng.randint(-24, 24), 8)) for _ in range(3)] for _ in range(n)]
-        r["forces"] = [forces(pd, rng.randint(0, 2)) for pd in ad["pds"]]
-        r["forcesInc"] = [forces(pd, rng.randint(0, 2)) for pd in ad["pds"]]
-        r["inc"] = rat(Fraction(rng.randint(1, 16), 8))
+        # the four load patterns side by side: constant forces only / incrementable only / unloaded / both
+        shift = rng.randint(0, 3) if shift is None else shift
+        pat = [(k + shift) % 4 for k in range(len(ad["pds"]))]
+        r["forces"] = [forces(pd, rng.randint(1, 2)) if t in (0, 3) else [] for pd, t in zip(ad["pds"], pat)]
+        r["forcesInc"] = [forces(pd, rng.randint(1, 2)) if t in (1, 3) else [] for pd, t in zip(ad["pds"], pat)]
+        r["inc"] = rat(Fraction(rng.randint(2, 16), 8) if inc is None else inc)      # never 1 unless asked
+        if fr(r["inc"]) == 1 and inc is None:
+            r["inc"] = rat(Fraction(3, 8))
     return r
 
 
@@ -511,47 +518,76 @@ def listed_open(name):
     return any(f.get("deviation") == name and f["status"] == "open" for f in common.known_findings())
 
 
+MATS = ("k0", "kG0", "kM")
+
+
+def tokens_of(d, r):
+    """the kinds of judged events a request can produce (the vocabulary of phase(only=...)):
+    plain request kinds  size k0 kG0 kM fext fint kT kGc  (assembly or bay),
+    place:<mat>  the bay's assembled matrix against its placed components (+ the stiffeners' symmetry / definiteness),
+    parts:<mat>  padup + flange law,  stiff:<mat>  derived stand-alone stiffener matrix,  b1dmass  1-D flange beam mass"""
+    if r["q"] == "place":
+        return {"place:" + m for m in MATS} | {"parts:" + m for m in MATS} | {"b1dmass"}
+    if r["q"] == "stiff":
+        return {"stiff:" + r["mat"]}
+    if r["q"] == "b1dmass":
+        return set()                     # produced by the place request of the same bay
+    return {r["q"]}
+
+
 def record(events, meta, d, r, only=None):
-    """run request r of description d on freshly built real objects and append the trace events (only: restrict a
-    'place' request to one of k0 / kG0 / kM)"""
-    def emit(ev, body, label):
+    """run request r of description d on freshly built real objects and append the trace events; only: set of event
+    kinds (tokens_of) to keep, None = all"""
+    def want(tok):
+        return only is None or tok in only
+
+    def emit(ev, body, label, tok):
         e = dict(ev=ev, id=len(events), d=d)
         e.update(body)
-        meta[e["id"]] = (d, body.get("req", dict(q=body.get("q"))), label)
+        meta[e["id"]] = (d, body.get("req", dict(q=body.get("q"))), label, tok)
         events.append(e)
         gc.freeze()      # recorded observations are permanent: keeps the package's gc.collect() calls cheap
 
     if d["kind"] == "asm":
-        for body in observe_asm(d, r):
-            emit("asm", body, "PanelAssembly")
+        if want(r["q"]):
+            for body in observe_asm(d, r):
+                emit("asm", body, "PanelAssembly", r["q"])
     elif r["q"] == "fext":
-        emit("bay", observe_bay_fext(d, r), "StiffPanelBay.calc_fext")
+        if want("fext"):
+            emit("bay", observe_bay_fext(d, r), "StiffPanelBay.calc_fext", "fext")
     elif r["q"] == "stiff":
-        sd = d["stiffs"][r["k"] - 1]
-        emit("bay", observe_stiff(d, r), "%s.calc_%s (derived stand-alone matrix of stiffener %d)"
-             % (dict(b1d="BladeStiff1D", b2d="BladeStiff2D", t2d="TStiff2D")[sd["kind"]], r["mat"], r["k"]))
+        if want("stiff:" + r["mat"]):
+            sd = d["stiffs"][r["k"] - 1]
+            emit("bay", observe_stiff(d, r), "%s.calc_%s (derived stand-alone matrix of stiffener %d)"
+                 % (dict(b1d="BladeStiff1D", b2d="BladeStiff2D", t2d="TStiff2D")[sd["kind"]], r["mat"], r["k"]), "stiff:" + r["mat"])
     elif not d["stiffs"]:
-        emit("bay", observe_skin_bay(d, r), "StiffPanelBay (skin tiles)")
+        if want(r["q"]):
+            emit("bay", observe_skin_bay(d, r), "StiffPanelBay (skin tiles)", r["q"])
     elif r["q"] == "size":
-        emit("bay", observe_bay_size(d, r), "StiffPanelBay.get_size")
+        if want("size"):
+            emit("bay", observe_bay_size(d, r), "StiffPanelBay.get_size", "size")
     elif r["q"] == "place":
-        for q in ("k0", "kG0", "kM"):
-            if only and q != only:
-                continue
-            body, psd, beams = observe_place(d, q)
-            emit("place", body, "StiffPanelBay.calc_%s vs placed components" % q)
-            for bm in beams:
-                emit("bay", bm, "BladeStiff1D.calc_kM (flange as a beam)")
-            for k in range(len(d["stiffs"])):
-                pb = observe_parts(d, k, q)
-                if pb is not None:
-                    emit("parts", pb, "stiffener %d (%s) with padup and flange = padup-only twin + flange-only twin, calc_%s"
-                         % (k + 1, d["stiffs"][k]["kind"], q))
-            for o in psd:
-                e = dict(ev="psd", id=len(events), sym=o["sym"], lmin=o["lmin"], norm=o["norm"], kind=o["kind"], q=o["q"])
-                meta[e["id"]] = (d, dict(q="place", psd=o["q"], stiffener=o["stiff"], kind=o["kind"]),
-                                 "contribution of stiffener %d (%s) to %s: symmetric, positive semi-definite" % (o["stiff"], o["kind"], o["q"]))
-                events.append(e)
+        for q in MATS:
+            wp, wb = want("place:" + q), q == "kM" and want("b1dmass")
+            if wp or wb:
+                body, psd, beams = observe_place(d, q)
+                if wp:
+                    emit("place", body, "StiffPanelBay.calc_%s vs placed components" % q, "place:" + q)
+                    for o in psd:
+                        e = dict(ev="psd", id=len(events), sym=o["sym"], lmin=o["lmin"], norm=o["norm"], kind=o["kind"], q=o["q"])
+                        meta[e["id"]] = (d, dict(q="place", psd=o["q"], stiffener=o["stiff"], kind=o["kind"]),
+                                         "contribution of stiffener %d (%s) to %s: symmetric, positive semi-definite"
+                                         % (o["stiff"], o["kind"], o["q"]), "place:" + q)
+                        events.append(e)
+                if wb:
+                    for bm in beams:
+                        emit("bay", bm, "BladeStiff1D.calc_kM (flange as a beam)", "b1dmass")
+            if want("parts:" + q):
+                for k in range(len(d["stiffs"])):
+                    pb = observe_parts(d, k, q)
+                    if pb is not None:
+                        emit("parts", pb, "stiffener %d (%s) with padup and flange = padup-only twin + flange-only twin, calc_%s"
+                             % (k + 1, d["stiffs"][k]["kind"], q), "parts:" + q)
 
 
 def judge(rep, events, meta, tag):
@@ -569,11 +605,11 @@ def judge(rep, events, meta, tag):
         v = verdicts.get(e["id"])
         if not v or v[0] == "ok":
             continue
-        d, r, label = meta[e["id"]]
+        d, r, label = meta[e["id"]][:3]
         desc = "%s: %s" % (label, describe(d, r))
         if v[0].startswith("kf:"):
             name = v[0][3:]
-            if name in OWN:
+            if name in OWN and rep.prop == "C13":
                 how = (" -> " + e["raised"]) if "raised" in e else ""
                 if e["ev"] == "bay" and r.get("q") == "b1dmass":
                     how = (" equals the exact beam mass with doubled coupling; %s entries differ from the literal one; negative "
@@ -583,10 +619,11 @@ def judge(rep, events, meta, tag):
                            "literal one" % (r["mat"], r["k"], v[1][0]))
                 rep.known(name, desc + how)          # not listed as open -> VIOLATION by Report.finish
             elif listed_open(name):
-                inherited_seen.add(name)           # another property's listed finding, reported by its own check
+                inherited_seen.add(name)           # a listed finding of another check (in a restriction run for another
+                                                   # property: also C13's own), printed by the check that owns it
             else:
                 rep.violation("%s is explained only by deviation %s (owned by %s), which known_findings.json does not list as open: %s"
-                              % (desc, name, INHERITED.get(name), e.get("msg", v[1])),
+                              % (desc, name, INHERITED.get(name, "C13"), e.get("msg", v[1])),
                               dict(d=d, req=r, ev=e["ev"], deviation=name))
         else:
             rep.violation("%s is not the sum of the placed components / not what the specification gives: %s"
@@ -606,12 +643,13 @@ def replay(path, build):
     events, meta = [], {}
     try:
         if rp.get("ev") in ("place", "parts") or r.get("q") == "place":
-            record(events, meta, d, dict(q="place"), only=r.get("psd", r.get("q")) if r.get("q") != "place" or "psd" in r else None)
+            mat = r.get("psd", r.get("q")) if r.get("q") != "place" or "psd" in r else None
+            record(events, meta, d, dict(q="place"), only={"place:" + mat, "parts:" + mat, "b1dmass"} if mat else None)
         else:
             if r.get("q") == "fint_part":
                 r = dict(q="fint", c=r["c"])
             if r.get("q") == "b1dmass":
-                record(events, meta, d, dict(q="place"), only="kM")
+                record(events, meta, d, dict(q="place"), only={"b1dmass"})
             else:
                 record(events, meta, d, r)
     except Exception as ex:
@@ -632,9 +670,12 @@ def run(tier, seed, build):
 
 
 def phase(rep, tier, seed, only=None, tag="c13"):
-    """the whole C13 procedure on `rep`; with only = {request kinds} it is the restriction to those requests
-    (used by C07 for the load vectors of assemblies and stiffened bays, by C08 for their fint / kT)"""
+    """the whole C13 procedure on `rep`; with only = {event kinds} (see tokens_of) it is the restriction to those events:
+    C07 passes {"fext"}; C08 {"fint", "kT"}; C03 (geometric stiffness) {"kG0", "kGc", "place:kG0", "stiff:kG0", "parts:kG0"};
+    C04 (mass) {"kM", "place:kM", "stiff:kM", "parts:kM", "b1dmass"}.  A filtered run is vacuous (machinery error) unless
+    every requested kind was exercised by the bounded model AND produced at least one judged event."""
     rng = random.Random(seed)
+    only = set(only) if only else None
     # 1. bounded model: placement algebra, partition independence, symmetry, probes ... as TLC invariants
     cfg = ("SPECIFICATION EmitSpec\nCONSTANTS\nNFun = 8\nADeviations = {}\nTier = \"%s\"\nPart = \"all\"\n%s\nCHECK_DEADLOCK FALSE\n"
            % (tier, "\n".join("INVARIANT " + i for i in INVS)))
@@ -643,38 +684,55 @@ def phase(rep, tier, seed, only=None, tag="c13"):
     if not mc.ok:
         rep.machinery("TLC on MC_Assembly failed: " + mc.errors())
         return
-    pairs = [(v[1], v[2]) for v in printed_values(mc.out, "REQ")]
-    if only:
-        pairs = [(d, r) for d, r in pairs if r["q"] in only]
+    lattice = [(v[1], v[2]) for v in printed_values(mc.out, "REQ")]
     # vacuity: every clause of the property must have been exercised by the bounded model
     seen = set()
-    for d, r in pairs:
+    for d, r in lattice:
         seen.add((d["kind"], r["q"]))
         if d["kind"] == "bay":
             seen.add(("cuts", len(d["cuts"]), bool(d["stiffs"])))
+            if r["q"] == "place":
+                kinds = [s["kind"] for s in d["stiffs"]]
+                own = [own_size(s) for s in d["stiffs"]]
+                for kd in ("b2d", "t2d"):      # two of a kind with different own sizes, in this insertion order
+                    o = [x for x, k2 in zip(own, kinds) if k2 == kd]
+                    if len(o) == 2 and o[0] != o[1]:
+                        seen.add(("two", kd, o[0] < o[1]))
         else:
             seen.add(("panels", len(d["pds"]), len(d["conns"])))
-    need = [("asm", q) for q in ("size", "k0", "kG0", "kM", "fext", "fint", "kT")] + \
+            if r["q"] == "fext":
+                pats = set((bool(f), bool(g)) for f, g in zip(r["forces"], r["forcesInc"]))
+                seen.add(("fext-patterns", len(pats) if len(d["pds"]) >= 4 else 0, fr(r["inc"]) == 0))
+    need = [("asm", q) for q in ("size", "k0", "kG0", "kM", "fext", "fint", "kT", "kGc")] + \
            [("bay", q) for q in ("size", "k0", "kG0", "kM", "place", "fext", "b1dmass", "stiff")] + \
-           [("cuts", k, False) for k in range(5)] + [("panels", 1, 0), ("panels", 4, 2)]
+           [("cuts", k, False) for k in range(5)] + [("panels", 1, 0), ("panels", 4, 2)] + \
+           [("two", kd, o) for kd in ("b2d", "t2d") for o in (True, False)] + \
+           [("fext-patterns", 4, True), ("fext-patterns", 4, False)]
     missing = [x for x in need if x not in seen]
-    if missing and not only:
+    if missing:
         rep.machinery("bounded model is vacuous for " + str(missing))
         return
+    pairs = [(d, r) for d, r in lattice if only is None or tokens_of(d, r) & only]
+
+    def add(d, r):
+        if only is None or tokens_of(d, r) & only:
+            pairs.append((d, r))
+
     # 2. replay into the real code + seeded random definitions
     nrand = 8 if tier == "quick" else 240
     for _ in range(nrand):
         ad = random_asm(rng)
-        for q in (["size", "k0"] + rng.sample(["kG0", "kM", "fext"], 1 if tier == "quick" else 3)):
-            if only and q not in only:
-                continue
-            pairs.append((ad, random_asm_req(rng, ad, q)))
+        for q in (["size", "k0"] + rng.sample(["kG0", "kM"], 1 if tier == "quick" else 2)):
+            add(ad, random_asm_req(rng, ad, q))
+        # load vectors: the four panel load patterns side by side, two shifts, load factor != 1 and = 0
+        sh = rng.randint(0, 3)
+        add(ad, random_asm_req(rng, ad, "fext", shift=sh))
+        add(ad, random_asm_req(rng, ad, "fext", shift=sh + 1, inc=rng.choice([0, 0, Fraction(5, 2)])))
         bd = random_skin_bay(rng)
         for q in (["size"] + rng.sample(["k0", "kG0", "kM"], 1 if tier == "quick" else 3)):
-            if only and q not in only:
-                continue
-            pairs.append((bd, dict(q=q, N=[rat(Fraction(rng.randint(-12, 12), 4)) for _ in range(3)]) if q == "kG0" else dict(q=q)))
-    # small random assemblies at random states for the non-linear quantities (fint, kT)
+            add(bd, dict(q=q, N=[rat(Fraction(rng.randint(-12, 12), 4)) for _ in range(3)]) if q == "kG0" else dict(q=q))
+    # small random assemblies at random states for the non-linear quantities (fint, kT) and the geometric stiffness
+    # from a state (kGc): amplitudes up to 1/2, so that the squares of the slopes are of the order of the membrane strains
     for _ in range(6 if tier == "quick" else 80):
         ad = random_asm(rng)
         ad["pds"] = ad["pds"][:2]
@@ -682,15 +740,14 @@ def phase(rep, tier, seed, only=None, tag="c13"):
             pd["m"], pd["n"] = rng.choice([(1, 2), (2, 2), (2, 1), (1, 1)])
         ad["conns"] = [c for c in ad["conns"] if max(c["p1"], c["p2"]) <= 2] or \
                       [dict(kind="SSycte", p1=2, p2=1, pos1=rat(0), pos2=ad["pds"][0]["b"])]
-        for q in ("fint", "kT"):
-            if only and q not in only:
-                continue
-            pairs.append((ad, random_asm_req(rng, ad, q)))
+        for q in ("fint", "kT", "kGc"):
+            add(ad, random_asm_req(rng, ad, q))
     for _ in range(nrand // 3):
         bd = random_stiff_bay(rng)
-        if not only:
-            pairs += [(bd, dict(q="size")), (bd, dict(q="place"))]
-            pairs += [(bd, r) for r in stiff_reqs(rng, bd, 2 if tier == "quick" else 3)]
+        add(bd, dict(q="size"))
+        add(bd, dict(q="place"))
+        for r in stiff_reqs(rng, bd, 2 if tier == "quick" else 3):
+            add(bd, r)
     events, meta = [], {}
     gc.collect()
     gc.freeze()          # the package calls gc.collect() in every method: keep the parsed lattice out of its way
@@ -701,12 +758,19 @@ def phase(rep, tier, seed, only=None, tag="c13"):
             if t % 2 == 0:          # every second request of a kind is made after another query on the same object
                 r = dict(r, pre=PRE_CALLS[r["q"]][(t // 2) % len(PRE_CALLS[r["q"]])])
         try:
-            record(events, meta, d, r)
+            record(events, meta, d, r, only=only)
         except Exception as ex:
             rep.violation("%s raised %s: %s" % (describe(d, r), type(ex).__name__, str(ex)[:200]), dict(d=d, req=r))
             continue
         rep.nontrivial(common._hashable((d["kind"], repr(d.get("pds", d.get("skin"))), repr(d.get("conns", d.get("cuts"))),
-                                         repr([(s["kind"], s["base"], s["flange"]) for s in d.get("stiffs", [])]), r["q"])))
+                                         repr([(s["kind"], s["base"], s["flange"]) for s in d.get("stiffs", [])]), r["q"],
+                                         r.get("mat"), repr(r.get("inc")))))
+    if only:
+        got = set(m[3] for m in meta.values())
+        unexercised = sorted(only - got)
+        if unexercised:
+            rep.machinery("no judged event of kind %s in the restriction %s" % (unexercised, sorted(only)))
+            return
     if os.environ.get("C13_DUMP"):
         with open(os.environ["C13_DUMP"], "w") as f:
             json.dump(events, f)
